@@ -512,18 +512,125 @@ def operand_kind(parent):
     return set()
 
 
+
+C_SYMBOL = {"Add": "+", "Subtract": "-", "Multiply": "*", "Equal": "==", "NotEqual": "!=", "GreaterThan": ">", "LessThan": "<",
+            "GreaterThanOrEqual": ">=", "LessThanOrEqual": "<=", "And": "&&", "Or": "||"}
+C_LEVEL = {"||": 4, "&&": 5, "==": 9, "!=": 9, "<": 10, ">": 10, "<=": 10, ">=": 10, "+": 12, "-": 12, "*": 13}
+
+
+def c_parse(text):
+    """The tree C reads from an expression of identifiers, parentheses and the binary operators the printer
+    emits (all left-associative): nested tuples (op, left, right)."""
+    toks = re.findall(r"\|\||&&|==|!=|<=|>=|[<>+\-*()]|[A-Za-z_]\w*", text)
+    if "".join(toks) != re.sub(r"\s+", "", text):
+        raise ValueError(f"unexpected characters in {text!r}")
+    pos = 0
+
+    def atom():
+        nonlocal pos
+        t = toks[pos]
+        pos += 1
+        if t == "(":
+            e = expr(0)
+            if pos >= len(toks) or toks[pos] != ")":
+                raise ValueError("unbalanced parentheses")
+            pos += 1
+            return e
+        if not re.fullmatch(r"[A-Za-z_]\w*", t):
+            raise ValueError(f"operand expected at {t!r}")
+        return t
+
+    def expr(minlevel):
+        nonlocal pos
+        left = atom()
+        while pos < len(toks) and toks[pos] in C_LEVEL and C_LEVEL[toks[pos]] >= minlevel:
+            op = toks[pos]
+            pos += 1
+            right = expr(C_LEVEL[op] + 1)
+            left = (op, left, right)
+        return left
+
+    e = expr(0)
+    if pos != len(toks):
+        raise ValueError(f"trailing text in {text!r}")
+    return e
+
+
+def c_printer_env(ix):
+    """Globals for evaluating the C expression printer abstractly: its own module-level functions and constants,
+    the IR classes as class objects, and the singledispatch entry point dispatching on the model object's class."""
+    from . import symeval as S
+    from .parsing import module_env
+
+    cimpl = registered_impl(ix, C_MOD, "ir_to_c_expression")
+    G = {}
+    tree = ix.module(C_MOD)
+    for st in tree.body:
+        if isinstance(st, ast.FunctionDef) and not any("register" in ast.unparse(d) for d in st.decorator_list):
+            G[st.name] = st
+    import_tensora(ix.src if hasattr(ix, "src") else None) if False else None
+    for name in list(C_SYMBOL) + ["Max", "Min", "Variable", "IntegerLiteral", "FloatLiteral", "BooleanLiteral", "ArrayIndex", "AttributeAccess", "BooleanToInteger", "ArrayAllocate", "ArrayReallocate", "Expression"]:
+        G[name] = S.class_obj(name)
+
+    def dispatch(x, *rest):
+        if not isinstance(x, S.Obj):
+            raise S.Uninterpretable("printer applied to a non-IR value")
+        fn = cimpl.get(x.tag)
+        if fn is None:
+            raise S.Uninterpretable(f"no C printer registered for {x.tag}")
+        outs = list(S.explore(fn, [x, *rest], globals_=G))
+        if len(outs) != 1:
+            raise S.Uninterpretable(f"printer of {x.tag} forks")
+        kind, val = outs[0][1]
+        if kind == "raise":
+            raise S.Raised(val)
+        if kind != "return":
+            raise S.Uninterpretable(f"printer of {x.tag}: {val}")
+        return val
+
+    G["ir_to_c_expression"] = dispatch
+    for k, v in module_env(ix, C_MOD, G).items():
+        G.setdefault(k, v)
+    return G, dispatch
+
+
+def printed_as(dispatch, parent, side, child):
+    """(tree the IR means, tree C reads from the printed text) for parent(child(..), x) / parent(x, child(..))."""
+    from . import symeval as S
+
+    def var(n):
+        return S.Obj("Variable", name=n, __bases__=("Assignable", "Expression"))
+
+    def node(cls, l, r):
+        return S.Obj(cls, left=l, right=r, __bases__=("Expression",))
+
+    if side == "left":
+        tree = node(parent, node(child, var("a"), var("b")), var("c"))
+        want = (C_SYMBOL[parent], (C_SYMBOL[child], "a", "b"), "c")
+    else:
+        tree = node(parent, var("a"), node(child, var("b"), var("c")))
+        want = (C_SYMBOL[parent], "a", (C_SYMBOL[child], "b", "c"))
+    text = dispatch(tree)
+    if not isinstance(text, str):
+        raise ValueError(f"printer returned {text!r}")
+    return want, c_parse(text), text
+
+
 def rule_precedence(ctx, ix):
     """Required parenthesisation (child precedence lower than the parent's, or equal on the right side:
     floating-point + and * are not associative, - is not associative) must be a subset of the wrap set
     the printer passes to parens()."""
     ctx.rule("C06.precedence", "required parentheses are a subset of the printer's wrap sets", min_instances=14)
+    from . import symeval as S
+
     cimpl = registered_impl(ix, C_MOD, "ir_to_c_expression")
+    try:
+        _G, dispatch = c_printer_env(ix)
+    except S.Uninterpretable as ex:
+        raise AnalysisError(f"C printer environment not interpretable: {ex}") from ex
     for parent, pprec in PREC.items():
-        fn = cimpl.get(parent)
-        shape = fstring_shape(fn) if fn is not None else None
-        if not shape:
+        if parent not in cimpl:
             continue
-        wraps = {s[1]: s[2] for s in shape if s[0] == "field"}
         for side in ("left", "right"):
             required = set()
             for child in operand_kind(parent):
@@ -535,34 +642,50 @@ def rule_precedence(ctx, ix):
                     if parent in CMP_CLASSES and child in CMP_CLASSES:
                         continue  # ill-typed: comparisons compare integers, not booleans
                     required.add(child)
-            have = wraps.get(side, frozenset()) or frozenset()
             for child in sorted(required):
                 ctx.instance("C06.precedence")
                 key = f"codegen/_ir_to_c.py:ir_to_c_expression:{parent}.{side}<-{child}"
-                if child in have:
+                # the printer is evaluated abstractly on the three-variable tree and its text is read back with
+                # C's precedence and associativity: the tree C reads must be the IR tree
+                try:
+                    want, got, text = printed_as(dispatch, parent, side, child)
+                except (S.Uninterpretable, S.Raised, S.Fork, ValueError) as ex:
+                    ctx.fail("C06.precedence", key, f"C printer not interpretable on {parent}({child}): {ex}")
+                    continue
+                if got == want:
                     ctx.ok("C06.precedence", key)
                 else:
                     ctx.fail(
                         "C06.precedence",
                         key,
                         f"{parent}({'x, ' if side == 'right' else ''}{child}(...){', x' if side == 'left' else ''}) is printed without parentheses: "
-                        f"C re-associates it, the LLVM back end evaluates the IR tree as written",
+                        f"C re-associates it, the LLVM back end evaluates the IR tree as written (printed `{text}`)",
                     )
-    # array allocate / reallocate: n_elements multiplied by sizeof
+    # array allocate / reallocate: n_elements multiplied by sizeof - printed and read back as well
+    _G["type_to_c"] = lambda t: "double"
+
+    def var(n):
+        return S.Obj("Variable", name=n, __bases__=("Assignable", "Expression"))
+
     for cls in ("ArrayAllocate", "ArrayReallocate"):
-        fn = cimpl.get(cls)
-        wrap = None
-        if fn is not None:
-            for n in ast.walk(fn):
-                if isinstance(n, ast.Call) and isinstance(n.func, ast.Name) and n.func.id == "parens" and "n_elements" in ast.unparse(n.args[0]):
-                    wrap = set(wrap_names(n.args[1]))
         for child in ("Add", "Subtract"):
             ctx.instance("C06.precedence")
             key = f"codegen/_ir_to_c.py:ir_to_c_expression:{cls}.n_elements<-{child}"
-            if wrap and child in wrap:
+            n_el = S.Obj(child, left=var("a"), right=var("b"), __bases__=("Expression",))
+            tree = S.Obj(cls, element_type=S.Obj("float type"), n_elements=n_el, old=var("p"), __bases__=("Expression",))
+            try:
+                text = dispatch(tree)
+                m = re.fullmatch(r"(?:malloc|realloc)\((?:\w+,\s*)?sizeof\(\w+\)\s*\*\s*(.*)\)", text if isinstance(text, str) else "")
+                if m is None:
+                    raise ValueError(f"printed `{text}`: not (m|re)alloc([p, ]sizeof(T) * n)")
+                got = c_parse("s * " + m.group(1))
+            except (S.Uninterpretable, S.Raised, S.Fork, ValueError) as ex:
+                ctx.fail("C06.precedence", key, f"C printer not interpretable on {cls}({child}): {ex}")
+                continue
+            if got == ("*", "s", (C_SYMBOL[child], "a", "b")):
                 ctx.ok("C06.precedence", key)
             else:
-                ctx.fail("C06.precedence", key, f"sizeof(T) * {child}(...) printed without parentheses")
+                ctx.fail("C06.precedence", key, f"sizeof(T) * {child}(...) printed without parentheses (`{text}`)")
     # compound assignment sugar
     simpl = registered_impl(ix, C_MOD, "ir_to_c_statement")
     fn = simpl.get("Assignment")
